@@ -24,12 +24,14 @@ from . import common as C
 TRACE = True
 TRUSTED = [
     "virtual-time simulator (harness/vsim.py): fake transports, integer-millisecond clock, one IPv4 socket per instance",
-    "DNSIncoming's decoding (C02 owns it): the listener model takes valid/has_qu_question from the real parser; is_query/truncated are recomputed from the header by generated leaves",
+    "DNSIncoming's decoding (C02 owns it): the listener model takes `valid` from the real parser; has_qu_question is derived from the question classes the harness reads off the wire with a walker of its own (the parser's flag only for packets the parser rejects); is_query/truncated are recomputed from the header by generated leaves",
     "the answer sets `_answer_question` returns (C03 owns them) are inputs of the routing model",
 ]
 ASSUMPTIONS = [
     "'immediate succession' = the second copy is delivered at the same clock reading as the first, before any other block of the instance runs",
-    "observable behaviour = datagrams sent (time, destination, decoded content, order-insensitive inside a section) + ServiceListener / browser-handler callbacks + lookup results; RecordUpdateListener invocations are not observations",
+    "observable behaviour = datagrams sent (time, destination address and port, decoded content with the three record sections merged and sorted) + ServiceListener / browser-handler callbacks per listener + lookup results + loop exception handler; the number of RecordUpdateListener invocations is compared too (an internal listener interface, but doubled record-manager rounds show there first)",
+    "every delivery is a fresh bytes object (equal, never identical), as every recvfrom of a socket is",
+    "recorded findings D11 / D11b: deliveries in their input class are spared in the main comparison; in the run that spares nothing (made for every case) their second copy gets the local oracle (no callback, <= 1 unicast datagram and only to the querier's address and port, multicast only of the predicted records in no more datagrams than the first copy sent, cache and queues unchanged) and the run's difference from the reference is filed under the finding only if its FIRST departure has the shape the finding predicts (classify_full_difference); anything else is a fresh violation",
     "identical random seeds = every random draw is a function of (seed, virtual time, index of the draw within that instant, interval)",
 ]
 
